@@ -341,10 +341,22 @@ class Gen:
 
 
 def case_with_fault(line, fk, fa):
+    """the same history with one injected panic.  The generator's lawful simulation no longer describes the
+    containers once a call has been cut short by the injected panic, so it can no longer guarantee the
+    contract of the unsafe fast paths: in fault variants they are replaced by their safe counterparts
+    (insert_unchecked -> insert, get_disjoint_unchecked_mut -> get_disjoint_mut)."""
     segs = line.split(" ; ")
     cfg = segs[0].split()
     cfg[2], cfg[3] = str(fk), str(fa)
-    return " ; ".join([" ".join(cfg)] + segs[1:])
+    ops = []
+    for seg in segs[1:]:
+        t = seg.split()
+        if t[0] == "13":
+            t[0] = "10"
+        elif t[0] == "51" and t[2] == "1":
+            t[2] = "0"
+        ops.append(" ".join(t))
+    return " ; ".join([" ".join(cfg)] + ops)
 
 
 # ---------------------------------------------------------------------------
